@@ -277,8 +277,13 @@ void StringDictionaryFMINDEX::build_ssa(uchar *text, size_t len,
   if (BWTsampling > 0) {
     uint samples = (len + 1) / BWTsampling + 1;
 
-    for (uint i = 0; i < samples; i++)
-      fm_index->suff_sample[i] = separators->rank1(fm_index->suff_sample[i]);
+    for (uint i = 0; i < samples; i++) {
+      // (the sampled position following the text is out of the bitmap)
+      size_t pos = fm_index->suff_sample[i];
+      if (pos >= len)
+        pos = len - 1;
+      fm_index->suff_sample[i] = separators->rank1(pos);
+    }
   }
 }
 
